@@ -75,6 +75,26 @@ def h2win (args : List String) : String :=
     | none => "bad-args"
   | _ => "bad-args"
 
+/-- `h2recv <ev>,<ev>,...` with ev = `r` (response headers) | `d<n>` (DATA of n bytes) | `e` (END_STREAM) | `x<code>` (RST_STREAM)
+    -> `complete <body length>` | `failed` | `needmore` -/
+def h2recv (args : List String) : String :=
+  match args with
+  | [evs] =>
+    let parse (s : String) : Option SEv :=
+      if s = "r" then some (.response 200 [])
+      else if s = "e" then some .ended
+      else if s.startsWith "d" then (s.drop 1).toString.toNat?.map fun n => .data (List.replicate n 0)
+      else if s.startsWith "x" then (s.drop 1).toString.toNat?.map .reset
+      else none
+    match optAll ((commaList evs).map parse) with
+    | some es =>
+      match recv es with
+      | .complete _ _ body => s!"complete {body.length}"
+      | .failed => "failed"
+      | .needMore => "needmore"
+    | none => "bad-args"
+  | _ => "bad-args"
+
 /-- `h2goaway <sid> <last>` -> `retry` | `fail` -/
 def h2goaway (args : List String) : String :=
   match args with
